@@ -13,6 +13,7 @@ type T struct {
 	Sort   string
 	Signed bool
 	GoT    types.Type // optional: Go type (for field selection in spec expressions)
+	AddrOf bool       // the term is the address of a variable that lives in memory (deref on use)
 }
 
 const (
